@@ -29,12 +29,13 @@ def obligations(tier):
         o.append(E1('sbbf-conformance/nb%d' % nb, H, SRC, d + ['-DMODE=2'], unwind=nb * 32 + 2, backends=SAT, timeout=420,
                     bounds='arbitrary filter state of %d block(s), symbolic hash; all bytes compared with the reference algorithm' % nb,
                     functions=FN_BLOOM, stub_realloc=False))
-    for nb in ([2] if quick else [2, 4]):
+    for nb in ([1, 2, 3] if quick else [1, 2, 3, 4, 5]):      # odd block counts too: filters loaded from files have any number of 32-byte blocks
         d = ['-DNB=%d' % nb]
-        o.append(E1('fresh-and-size/n<=%d' % (nb * 32), H, SRC, d + ['-DMODE=3'], unwind=nb * 32 + 2, backends=SAT, timeout=240,
+        if nb in (2, 4):
+          o.append(E1('fresh-and-size/n<=%d' % (nb * 32), H, SRC, d + ['-DMODE=3'], unwind=nb * 32 + 2, backends=SAT, timeout=240,
                     bounds='create(n) for every n <= %d, symbolic probe hash' % (nb * 32),
                     functions=['carquet_bloom_filter_create', 'carquet_bloom_filter_check_hash', 'carquet_bloom_filter_size'], stub_realloc=False))
-        o.append(E1('write-read-merge/nb%d' % nb, H, SRC, d + ['-DMODE=4'], unwind=nb * 32 + 2, backends=SAT, timeout=300,
+        o.append(E1('write-read-merge/nb%d' % nb, H, SRC, d + ['-DMODE=4'], unwind=nb * 32 + 2, backends=SAT, timeout=480,
                     bounds='two arbitrary filter states of %d block(s), symbolic hashes' % nb,
                     functions=['carquet_bloom_filter_write', 'carquet_bloom_filter_read', 'carquet_bloom_filter_merge'] + FN_BLOOM, stub_realloc=False))
     typed = [(0, 'i32', 4), (1, 'i64', 8), (4, 'bytes0', 0), (4, 'bytes3', 3), (4, 'bytes9', 9)]
